@@ -241,6 +241,9 @@ pub fn report_hang_and_exit(prop: &str, seed: u64, stage: &str, case: Value, sec
 fn guarded(f: impl FnOnce() -> Result<(), String>) -> Result<(), String> {
     match util::catch(f) {
         Ok(r) => r,
+        // a panic raised by the checking code itself (its sources compile as src/...) is a defect of the machinery:
+        // reported as inconclusive (exit 2), never as a violation of the property
+        Err(p) if p.file.starts_with("src/") => Err(format!("HARNESS: the checking code panicked: {}", p.short())),
         Err(p) => Err(format!("uncaught {}", p.short())),
     }
 }
